@@ -37,6 +37,8 @@ func childMain(role string, args []string) int {
 		return childAtomic(args)
 	case "locker":
 		return childLocker(args)
+	case "housekeep":
+		return childHousekeep(args)
 	}
 	fmt.Fprintf(os.Stderr, "unknown child role %q\n", role)
 	return 64
@@ -50,6 +52,8 @@ func run(c *vlib.Ctx) error {
 		return runAtomic(c)
 	case "C28":
 		return runLock(c)
+	case "C43":
+		return runHousekeep(c)
 	}
 	return fmt.Errorf("driver process does not serve property %s", c.Prop)
 }
@@ -62,6 +66,8 @@ func replay(c *vlib.Ctx) error {
 		return replayAtomic(c)
 	case "C28":
 		return replayLock(c)
+	case "C43":
+		return replayHousekeep(c)
 	}
 	return fmt.Errorf("driver process does not serve property %s", c.Prop)
 }
